@@ -29,7 +29,8 @@ class Mode(LogMixin):
     __slots__ = ["machine", "config", "name", "path", "priority", "_active", "_starting", "_mode_start_wait_queue",
                  "stop_methods", "start_callback", "stop_callbacks", "event_handlers", "switch_handlers",
                  "mode_stop_kwargs", "mode_devices", "start_event_kwargs", "stopping", "delay", "player",
-                 "auto_stop_on_ball_end", "restart_on_next_ball", "asset_paths", "_cleanup_pending"]
+                 "auto_stop_on_ball_end", "restart_on_next_ball", "asset_paths", "_cleanup_pending",
+                 "_start_hook_pending"]
 
     # pylint: disable-msg=too-many-arguments
     def __init__(self, machine: "MachineController", config, name: str, path, asset_paths) -> None:
@@ -63,6 +64,7 @@ class Mode(LogMixin):
         self.start_event_kwargs = {}            # type: Dict[str, Any]
         self.stopping = False
         self._cleanup_pending = False
+        self._start_hook_pending = False
 
         self.delay = DelayManager(self.machine)
         '''DelayManager instance for delays in this mode. Note that all delays
@@ -260,6 +262,8 @@ class Mode(LogMixin):
 
         self.active = True
         self._starting = False
+        # mode_start() is due exactly once for this start. it runs in the callback of mode_(name)_started below
+        self._start_hook_pending = True
 
         for event_name in self.config['mode']['events_when_started']:
             self.machine.events.post(event_name)
@@ -278,10 +282,14 @@ class Mode(LogMixin):
     def _mode_started_callback(self, **kwargs) -> None:
         """Handle result of mode_<name>_started queue event."""
         del kwargs
-        if not self._active:
-            # stopped again by a handler of mode_(name)_started. mode_stop() already ran.
-            self.start_event_kwargs = dict()
+        if not self._start_hook_pending:
+            # the mode was stopped again by a handler of mode_(name)_started, or this is the callback of an earlier
+            # start: handlers of mode_(name)_started stopped and restarted the mode before this callback was delivered.
+            # mode_start() of the current start has run already or will run from the callback of its own started
+            # event. start_event_kwargs belong to the current start.
             return
+
+        self._start_hook_pending = False
 
         self.mode_start(**self.start_event_kwargs)
 
@@ -356,6 +364,7 @@ class Mode(LogMixin):
         self.priority = 0
         self.active = False
         self.stopping = False
+        self._start_hook_pending = False
 
         for item in self.stop_methods:
             item[0](item[1])
